@@ -90,6 +90,7 @@ class Ctx:
 
 def run_property(prop, tier="quick", seed=0, overlay=None, root=REPO_ROOT, write=True, quiet=False, selftest=False):
     """Runs one property's rules; returns (exit_code, Check | None, error)."""
+    ctx = None
     try:
         ctx = Ctx(prop, tier, seed, root=root, overlay=overlay)
         if len(ctx.repo.modules) < 55:
@@ -120,6 +121,16 @@ def run_property(prop, tier="quick", seed=0, overlay=None, root=REPO_ROOT, write
         code = ctx.chk.finish(write_evidence=write, quiet=quiet)
         return code, ctx.chk, None
     except AnalysisError as e:
+        # a violation already recorded is a positively recognised construct:
+        # an unrecognised shape elsewhere must not mask it
+        if ctx is not None and ctx.chk.findings:
+            ctx.chk.notes.append(f"analysis incomplete: {e}")
+            if not quiet:
+                print(f"note: analysis incomplete after recording violations: {e}")
+            ctx.record_analysed()
+            code = ctx.chk.finish(write_evidence=write, quiet=quiet)
+            if code == 1:
+                return code, ctx.chk, None
         if not quiet:
             print(f"ANALYSIS-ERROR property={prop} reason={e}")
         return 2, None, str(e)
